@@ -12,14 +12,23 @@ VARIABLE cs
 
 \* ---- anisotropy geometries (ranges m/2, angle codes)
 Geo1 == { GeoCase(1, <<m>>, <<0>>, 4) : m \in {1, 2, 3, 10} }
-Ang2 == 0..7
+Ang2 == 0..11
 Geo2 == { GeoCase(2, m, <<a, 0>>, IF Thorough THEN 3 ELSE 2) : m \in { <<4, 2>>, <<3, 1>>, <<2, 2>>, <<10, 1>>, <<1, 6>> }, a \in Ang2 }
+        \cup { GeoCaseRep(2, m, <<a, 0>>, 2, <<r, 0>>) : m \in { <<4, 2>>, <<1, 6>> }, a \in {1, 4, 6, 9}, r \in {1, 2} }   \* negative / beyond 360
 Key3(t) == 16 * t[1] + 4 * t[2] + t[3]
 Rot24 == LET all == [1..3 -> 0..3] IN { t \in all : \A u \in all : RotOf(3, u).n = RotOf(3, t).n => Key3(u) >= Key3(t) }
 Ang3 == { <<0, 0, 0>>, <<1, 0, 0>>, <<0, 1, 0>>, <<0, 0, 1>>, <<4, 0, 0>>, <<0, 4, 0>>, <<0, 0, 4>>, <<4, 4, 0>>, <<3, 1, 2>>, <<4, 1, 5>> }
         \cup (IF Thorough THEN Rot24 \cup { <<4, 0, 4>>, <<0, 4, 4>>, <<5, 1, 6>>, <<1, 7, 2>>, <<6, 4, 1>> } ELSE {})
 Mul3 == { <<4, 2, 1>>, <<3, 6, 2>>, <<2, 2, 2>>, <<10, 2, 1>> }
-Geo3 == { GeoCase(3, m, a, 2) : m \in Mul3, a \in Ang3 }
+\* angles beyond 180 degrees and negative angles, composed (the right angles alone only permute / flip the axes):
+\* (T+180, T, 0), (T, T+180, T), (-T, T, 0), (T, 180-T, 90-T) ... and the same angles given minus / plus 360 degrees
+Ang3Wide == { <<6, 4, 0>>, <<4, 6, 4>>, <<8, 4, 0>>, <<4, 9, 0>>, <<7, 0, 9>>, <<2, 4, 8>>, <<0, 8, 6>> }
+            \cup (IF Thorough THEN { <<9, 5, 1>>, <<3, 8, 4>>, <<11, 10, 0>>, <<6, 7, 0>> } ELSE {})
+Reps3 == { <<0, 0, 0>>, <<1, 0, 0>>, <<0, 1, 1>>, <<1, 1, 1>>, <<2, 0, 1>> }
+Geo3Wide == { GeoCaseRep(3, m, a, 2, r) : m \in { <<4, 2, 1>>, <<3, 6, 2>> }, a \in Ang3Wide, r \in Reps3 }
+            \cup { GeoCaseRep(3, m, a, 2, r) : m \in { <<4, 2, 1>>, <<1, 3, 4>> }, a \in { <<4, 9, 10>>, <<11, 8, 5>> }, r \in { <<0, 0, 0>>, <<1, 1, 0>> } }
+            \cup { GeoCaseRep(3, <<4, 2, 1>>, a, 2, r) : a \in { <<4, 0, 0>>, <<0, 4, 0>>, <<0, 0, 4>>, <<3, 1, 2>>, <<4, 4, 0>> }, r \in { <<1, 1, 1>>, <<0, 2, 1>> } }
+Geo3 == { GeoCase(3, m, a, 2) : m \in Mul3, a \in Ang3 } \cup Geo3Wide
         \cup { GeoCase(3, m, <<4, 4, 4>>, 2) : m \in { <<4, 2, 1>>, <<2, 2, 2>>, <<1, 3, 4>> } }     \* denominator 125: small ranges only
 Geos == Geo1 \cup Geo2 \cup Geo3
 
@@ -55,6 +64,7 @@ Mixes ==
 
 Cases == { [k |-> "entry", e |-> e] : e \in Range(Catalogue) }
          \cup Equations(Thorough) \cup Geos \cup PointSets \cup Plans \cup Mixes
+         \cup UNION { AdmitRequests(e) : e \in Range(Catalogue) }
 
 Init == cs = [k |-> "root"]
 Next == cs.k = "root" /\ cs' \in Cases
@@ -68,6 +78,7 @@ Inv ==
     [] cs.k = "pset"  -> PointSetOk(cs)
     [] cs.k = "psd"   -> cs.ps \in PsIds(cs.d) /\ cs.ob \in {"psd", "cpsd", "invalid", "unclaimed"}
     [] cs.k = "mix"   -> cs.ps \in PsIds(cs.d) /\ SillOk(cs.sl)
+    [] cs.k = "admit" -> AdmitRequestOk(cs)
 
 Emit == cs.k = "root" \/ PrintT(ToJson(cs))
 =============================================================================
